@@ -148,8 +148,25 @@ func (rep *Report) takeCover(def *propDef, st *CoverStats, cats []*cat.Catalog, 
 			rep.note("processcrash", f.Detail)
 		}
 	}
+	vetted := map[string]bool{}
 	for _, ex := range st.Examples {
 		if def.claims(ex.Div.Kind, ex.Div.Detail) {
+			if orderExplains(ex.Div.Kind) {
+				// the strict prediction failed: is the observed execution still one the
+				// specification allows when independent parameters are built in another order?
+				ok, done := vetted[ex.Line]
+				if !done {
+					if ml, err := run.ParseModelLine(ex.Line); err == nil {
+						res := run.Replay(cats[ex.Ci-1], ml, run.ReplayOpts{Keep: true})
+						ok, _ = vetFreeOrder(cats[ex.Ci-1], ml.Opt, res.Observed)
+					}
+					vetted[ex.Line] = ok
+				}
+				if ok {
+					rep.note("order-tolerated."+ex.Div.Kind, ex.Div.Detail)
+					continue
+				}
+			}
 			rep.Findings = append(rep.Findings, Finding{Property: rep.Prop, Kind: ex.Div.Kind, Detail: ex.Div.Detail, Stage: st.Family,
 				Source: "cover", Catalog: cats[ex.Ci-1], Line: json.RawMessage(ex.Line)})
 		} else {
@@ -194,6 +211,12 @@ func (rep *Report) takeTrace(def *propDef, st *TraceStats, cfg TraceSpecCfg, err
 	}
 	for _, ex := range st.Examples {
 		if def.claims(ex.Div.Kind, ex.Div.Detail) {
+			if orderExplains(ex.Div.Kind) && ex.Rec != nil && ex.Rec.Variant == "" {
+				if ok, _ := vetFreeOrder(ex.Rec.Cat, ex.Rec.Opt, ex.Rec.Ops); ok {
+					rep.note("order-tolerated."+ex.Div.Kind, ex.Div.Detail)
+					continue
+				}
+			}
 			idx := 0
 			fmt.Sscanf(ex.Rec.Cat.Note[strings.LastIndex(ex.Rec.Cat.Note, "#")+1:], "%d", &idx)
 			c := cfg
@@ -536,6 +559,12 @@ func replayMain(args []string) int {
 				fmt.Printf("  %d got  %s\n", i, ob)
 			}
 		}
+		if hit && orderExplains(f.Kind) {
+			if ok, _ := vetFreeOrder(f.Catalog, ml.Opt, res.Observed); ok {
+				fmt.Println("the observed execution is allowed by the specification when independent parameters are built in another order: not a violation")
+				return 0
+			}
+		}
 		if hit {
 			return 1
 		}
@@ -558,6 +587,12 @@ func replayMain(args []string) int {
 		for _, ex := range st.Examples {
 			mark := " "
 			if def.claims(ex.Div.Kind, ex.Div.Detail) {
+				if orderExplains(ex.Div.Kind) && ex.Rec != nil && ex.Rec.Variant == "" {
+					if ok, _ := vetFreeOrder(ex.Rec.Cat, ex.Rec.Opt, ex.Rec.Ops); ok {
+						fmt.Printf("~ %s op=%d: %s (allowed under another build order)\n", ex.Div.Kind, ex.Div.Op, ex.Div.Detail)
+						continue
+					}
+				}
 				hit = true
 				mark = "*"
 			}
